@@ -399,7 +399,12 @@ func (s *sim) opRange(t *rapid.T) {
 	}
 	sort.Slice(want, func(i, j int) bool { return want[i] < want[j] })
 	sort.Slice(seen, func(i, j int) bool { return seen[i] < seen[j] })
-	s.w.Step("RangeExtensions(failAt=%d) visited %v err=%v (model %v)", failAt, seen, err, want)
+	if failAt >= 0 && failAt < len(want) {
+		// which extensions come first is the runtime's (map) order: only the count is logged
+		s.w.Step("RangeExtensions(failAt=%d) visited %d before the callback failed, err=%v (model %v)", failAt, len(seen), err, want)
+	} else {
+		s.w.Step("RangeExtensions(failAt=%d) visited %v err=%v (model %v)", failAt, seen, err, want)
+	}
 	s.judged++
 	if failAt >= 0 && failAt < len(want) {
 		if !errors.Is(err, errCallback) {
